@@ -225,6 +225,7 @@ def run(prog, R):
         ok = rows == {((True,), "bare"), ((False,), "annotated")}
         R.ob("C06.4-annotations", "insert_stmt(bare) iff annotations_is_empty, else insert_stmt(AnnotatedStmt::new(stmt, take_annotations()))", ok, b.at, f"{sorted(rows)}")
     R.premises(prog, "C06.1-literal-class-premise", ["C10:C10.4-", "C08:C08.1-"], "every literal class maps to the graph literal of the same class (imaginary / timing / bit-string / boolean constructors, signs): C10.4 and C08.1 tables")
+    R.premises(prog, "C06.2-parse-shape-premise", ["C05:C05.1-", "C05:C05.4-"], "the graph is built from the typed tree: operand grouping (precedence and associativity tables, C05.1) and the node each token and operand belongs to (C05.4) are what the translation mirrors")
     R.premises(prog, "C06.5-include-premise", ["C18:C18.2-", "C18:C18.5-"], "included files are expanded in place: the n-th include statement is paired with the n-th parsed file (lock-step of the pre-pass and the analyser, C18.2)")
     # who consumes pending annotations: only the top-level statement loop.  A consumer inside a nested statement list
     # would hand an annotation that is pending when the enclosing statement starts (i.e. written in front of it) to
@@ -240,6 +241,15 @@ def run(prog, R):
                   for _, t in b_.calls() if (b_.callee_of(t) or "").startswith("oq3_semantics::context::Context::") and "annotation" in (b_.callee_of(t) or "").split("::")[-1]})
     want_acc = [("semantics::syntax_to_semantics::stmt_to_asg_stmt", "push_annotation"), ("semantics::syntax_to_semantics::syntax_to_semantic", "annotations_is_empty"), ("semantics::syntax_to_semantics::syntax_to_semantic", "take_annotations")]
     R.ob("C06.4-annotations", "accesses to the pending-annotation list", acc == want_acc, "", f"{acc}" if acc == want_acc else f"accesses {acc}; expected exactly {want_acc}")
+    # ... and the field itself is reached only through those methods (a direct `context.annotations = ..` /
+    # mem::replace in the translator would set pending annotations aside or drop them without any of the calls above)
+    from kernel import field_sites as _fs
+    CT_ = "oq3_semantics::context::Context"
+    outside = sorted({(inventory.ishort(s_["body"].npath), s_["mode"]) for s_ in _fs(prog, CT_, "annotations")
+                      if not (s_["body"].npath.startswith(CT_ + "::") or s_["body"].npath.startswith("<" + CT_ + " as "))})
+    meths = sorted({s_["body"].npath.split("::")[-1] for s_ in _fs(prog, CT_, "annotations") if s_["body"].npath.startswith(CT_ + "::") and s_["mode"] in ("refmut", "write", "move")})
+    R.ob("C06.4-annotations", "Context.annotations is touched only inside Context's methods", not outside and len(meths) >= 2, "",
+         f"mutating methods: {meths}" if not outside else f"direct accesses to the pending-annotation list outside Context: {outside}: annotations can be set aside, replaced or dropped without passing the statement loop's test-and-take")
     ta = prog.body("oq3_semantics::context::Context::take_annotations")
     if ta:
         names = [(ta.callee_of(t) or "").split("::")[-1] for _, t in ta.calls()]
